@@ -378,6 +378,22 @@ impl ChunkFooter {
     fn is_empty(&self) -> bool {
         ptr::eq(self, EMPTY_CHUNK.get().as_ptr())
     }
+
+    /// Store a new bump finger.
+    ///
+    /// The empty chunk is a `static` shared by every `Bump` that has not
+    /// allocated a chunk yet, on every thread, so it must never be written to.
+    /// Its finger can only ever be "moved" to where it already is (zero-sized
+    /// allocations, deallocations and rewinds), so skipping the store loses
+    /// nothing.
+    #[inline]
+    fn set_ptr(&self, ptr: NonNull<u8>) {
+        if self.is_empty() {
+            debug_assert_eq!(self.ptr.get(), ptr);
+        } else {
+            self.ptr.set(ptr);
+        }
+    }
 }
 
 impl<const MIN_ALIGN: usize> Default for Bump<MIN_ALIGN> {
@@ -986,7 +1002,7 @@ impl<const MIN_ALIGN: usize> Bump<MIN_ALIGN> {
                 is_pointer_aligned_to(cur_chunk.as_ptr(), MIN_ALIGN),
                 "bump pointer {cur_chunk:#p} should be aligned to the minimum alignment of {MIN_ALIGN:#x}"
             );
-            cur_chunk.as_ref().ptr.set(cur_chunk.cast());
+            cur_chunk.as_ref().set_ptr(cur_chunk.cast());
 
             // Reset the allocated size of the chunk.
             cur_chunk.as_mut().allocated_bytes = cur_chunk.as_ref().layout.size() - FOOTER_SIZE;
@@ -1220,13 +1236,13 @@ impl<const MIN_ALIGN: usize> Bump<MIN_ALIGN> {
                 // this result.
                 if self.is_last_allocation(inner_result_ptr.cast()) {
                     let current_footer_p = self.current_chunk_footer.get();
-                    let current_ptr = &current_footer_p.as_ref().ptr;
+                    let current_footer = current_footer_p.as_ref();
                     if current_footer_p == rewind_footer {
                         // It's still the same chunk, so reset the bump pointer
                         // to its original value upon entry to this method
                         // (reclaiming any alignment padding we may have
                         // added).
-                        current_ptr.set(rewind_ptr);
+                        current_footer.set_ptr(rewind_ptr);
                     } else {
                         // We allocated a new chunk for this result.
                         //
@@ -1244,7 +1260,7 @@ impl<const MIN_ALIGN: usize> Bump<MIN_ALIGN> {
                         // we can reset the chunk's bump finger to the end of
                         // the chunk's bump region, i.e. its footer (we bump
                         // downwards, so that is the "empty" position).
-                        current_ptr.set(current_footer_p.cast());
+                        current_footer.set_ptr(current_footer_p.cast());
                     }
                 }
                 //SAFETY:
@@ -1329,13 +1345,13 @@ impl<const MIN_ALIGN: usize> Bump<MIN_ALIGN> {
                 // this result.
                 if self.is_last_allocation(inner_result_ptr.cast()) {
                     let current_footer_p = self.current_chunk_footer.get();
-                    let current_ptr = &current_footer_p.as_ref().ptr;
+                    let current_footer = current_footer_p.as_ref();
                     if current_footer_p == rewind_footer {
                         // It's still the same chunk, so reset the bump pointer
                         // to its original value upon entry to this method
                         // (reclaiming any alignment padding we may have
                         // added).
-                        current_ptr.set(rewind_ptr);
+                        current_footer.set_ptr(rewind_ptr);
                     } else {
                         // We allocated a new chunk for this result.
                         //
@@ -1353,7 +1369,7 @@ impl<const MIN_ALIGN: usize> Bump<MIN_ALIGN> {
                         // we can reset the chunk's bump finger to the end of
                         // the chunk's bump region, i.e. its footer (we bump
                         // downwards, so that is the "empty" position).
-                        current_ptr.set(current_footer_p.cast());
+                        current_footer.set_ptr(current_footer_p.cast());
                     }
                 }
                 //SAFETY:
@@ -1976,7 +1992,7 @@ impl<const MIN_ALIGN: usize> Bump<MIN_ALIGN> {
             debug_assert!(!aligned_ptr.is_null());
             let aligned_ptr = NonNull::new_unchecked(aligned_ptr);
 
-            footer.ptr.set(aligned_ptr);
+            footer.set_ptr(aligned_ptr);
             Some(aligned_ptr)
         }
     }
@@ -2239,7 +2255,7 @@ impl<const MIN_ALIGN: usize> Bump<MIN_ALIGN> {
                 "bump pointer {ptr:#p} should be aligned to the minimum alignment of {MIN_ALIGN:#x}"
             );
             let ptr = NonNull::new_unchecked(ptr);
-            self.current_chunk_footer.get().as_ref().ptr.set(ptr);
+            self.current_chunk_footer.get().as_ref().set_ptr(ptr);
         }
     }
 
@@ -2325,7 +2341,7 @@ impl<const MIN_ALIGN: usize> Bump<MIN_ALIGN> {
                 is_pointer_aligned_to(new_ptr.as_ptr(), MIN_ALIGN),
                 "bump pointer {new_ptr:#p} should be aligned to the minimum alignment of {MIN_ALIGN:#x}"
             );
-            footer.ptr.set(new_ptr);
+            footer.set_ptr(new_ptr);
 
             // NB: we know it is non-overlapping because of the size check
             // in the `if` condition.
